@@ -205,8 +205,8 @@ func (m *c08Model) cclearPrefix(c, p string, limit int) {
 
 // limitShape describes a limited clear about to run inside a transaction: the
 // number of overlay entries with the prefix that hold a value, and the number
-// of backend keys with the prefix that have no overlay value.
-func (m *c08Model) limitShape(mainSpace bool, c, p string) (ovVal, backOnly int) {
+// of backend keys with the prefix.
+func (m *c08Model) limitShape(mainSpace bool, c, p string) (ovVal, backend int) {
 	t := m.top()
 	back, ov := m.bMain, t.main
 	if !mainSpace {
@@ -217,12 +217,7 @@ func (m *c08Model) limitShape(mainSpace bool, c, p string) (ovVal, backOnly int)
 			ovVal++
 		}
 	}
-	for _, k := range back.WithPrefix([]byte(p)) {
-		if o, ok := ov[k]; !ok || o.del {
-			backOnly++
-		}
-	}
-	return
+	return ovVal, len(back.WithPrefix([]byte(p)))
 }
 
 func (m *c08Model) start() {
